@@ -647,8 +647,20 @@ func runGraph(c graphCase, r *pb.Rec) error {
 		queryAt[q] = true
 	}
 	var final map[int]bool
+	var reused algz.Graph[int]
 	for rep := 0; rep < reps(); rep++ {
-		var g algz.Graph[int]
+		var fresh algz.Graph[int]
+		g := &fresh
+		if c.Mix%2 == 1 {
+			// one Graph object for all repetitions, brought back to empty with Init before each: nothing of the
+			// previous graph (here: the same vertices with other edge entry points) may survive
+			g = &reused
+			if rep > 0 {
+				g.AddUndirectedEdge(100+rep, 200+rep) // something the next graph does not have
+			}
+			g.Init(c.N)
+			r.Class("Graph object re-initialised and built again")
+		}
 		adj := make([][]bool, c.N)
 		for i := range adj {
 			adj[i] = make([]bool, c.N)
@@ -911,7 +923,7 @@ func init() {
 	pb.Register("maximal_cliques_large", pb.Options{Base: 400, Required: []string{"more than 32 vertices", "a maximal clique of >= 17 vertices", ">= 200 maximal cliques"},
 		Rule: "undirected graphs on 11..64 vertices (31..34 and 63/64 sampled): random background edges of density 0..0.2 plus up to 5 planted cliques of 2..12 vertices and occasionally one of 16..18, edges added through three entry-point mixes; oracle: validity predicate on every returned set (vertices of the graph, a clique, not extendable, returned once) and completeness against an independent bitset Bron-Kerbosch (cases with more than 20000 maximal cliques are skipped and counted); non-trivial = more than 16 vertices and more than n/2 maximal cliques"},
 		genBigGraph, runBigGraph)
-	pb.Register("maximal_cliques", pb.Options{Twins: 3, Base: 3000, Required: []string{"edgeless graph", "complete graph / single clique", "queried while being built"},
+	pb.Register("maximal_cliques", pb.Options{Twins: 3, Base: 3000, Required: []string{"edgeless graph", "complete graph / single clique", "queried while being built", "Graph object re-initialised and built again"},
 		Rule: "undirected simple graphs with 1..10 vertices, each edge drawn with density 0.1..0.9, built with AddNode/AddUndirectedEdge in a drawn order, half of the cases also query GetMaximalCliques at drawn points while the graph is still being built, 5 executions per case; oracle: brute-force set of maximal cliques, each returned exactly once and nothing else; non-trivial = >= 2 overlapping maximal cliques"},
 		genGraph, runGraph)
 }
